@@ -3,7 +3,7 @@
 use crate::exec::{check_point, guard_kv, Exec, Key, SnapView, R};
 use crate::model::Expect;
 use crate::util::hex;
-use lsm_tree::{AbstractTree, AnyTree, Guard, SeqNo, ValueType};
+use lsm_tree::{AbstractTree, AnyTree, SeqNo, ValueType};
 use std::collections::BTreeMap;
 use std::path::PathBuf;
 
